@@ -422,7 +422,15 @@ class Headers:
         """
         if values:
             values_iter = iter(values)
-            self.set(key, next(values_iter))
+
+            try:
+                first = next(values_iter)
+            except StopIteration:
+                # An exhausted iterator is truthy but has no values.
+                self.remove(key)
+                return
+
+            self.set(key, first)
 
             for value in values_iter:
                 self.add(key, value)
